@@ -19,7 +19,7 @@ RULE = ("seeded typed query generator (joins of every kind, derived tables, CTEs
         "distinct = distinct original text")
 ASSUMPTIONS = ["DuckDB 1.5.5 defines the expected rows", "rules are applied with the keyword arguments optimize() itself would pass"]
 SPEC = {
-    "quick": {"shards": 16, "time_cap": 120, "cases": 6000},
+    "quick": {"shards": 16, "time_cap": 400, "cases": 6000},
     "thorough": {"shards": 16, "time_cap": 1500, "cases": 60000},
 }
 
